@@ -311,7 +311,7 @@ func (d *badgerNodeDB) Finalize(roots []node.Root) error { // nolint: gocyclo
 	rootIt := tx.NewIterator(badger.IteratorOptions{Prefix: rootsPrefix})
 	defer rootIt.Close()
 
-	var removeMetaKeys [][]byte
+	var removeMetaKeys, removeRootKeys [][]byte
 	finalizedSeqNos := make(map[byte]uint16)
 	maybeLoneNodes := make(map[byte]map[string]struct{})
 	notLoneNodes := make(map[byte]map[string]struct{})
@@ -391,6 +391,10 @@ func (d *badgerNodeDB) Finalize(roots []node.Root) error { // nolint: gocyclo
 
 				maybeLoneNodes[rht][string(un.Key)] = struct{}{}
 			}
+
+			// Remove the root node of the non-finalized root, otherwise the root would still be
+			// reported although its nodes are gone.
+			removeRootKeys = append(removeRootKeys, rootIt.Item().KeyCopy(nil))
 
 			// Remove write logs for the non-finalized root.
 			if !d.discardWriteLogs {
@@ -475,6 +479,12 @@ func (d *badgerNodeDB) Finalize(roots []node.Root) error { // nolint: gocyclo
 			if err := batch.Delete(finalizedNodeKeyFmt.Encode(rht, []byte(k))); err != nil {
 				return fmt.Errorf("mkvs/pathbadger: failed to delete lone node: %w", err)
 			}
+		}
+	}
+
+	for _, key := range removeRootKeys {
+		if err := batch.Delete(key); err != nil {
+			return fmt.Errorf("mkvs/pathbadger: failed to delete root node: %w", err)
 		}
 	}
 
